@@ -90,7 +90,8 @@ def explore(ctx, extended=False, focus=None):
         w = common.Worker(be, "worker_files.py")
         try:
             if not p:
-                ex.disagreements.append({"backend": be, "what": "modulus could not be extracted"}); continue
+                ex.disagreements.append({"backend": be, "what": "modulus could not be extracted from the source"})
+                p = int(w.run(["M|m"])[0].split("|")[1])
             cases = progs.generate(ctx.rnd, nprog, f"c11{be}_", mix=[(4, progs.op_case), (2, progs.chain_case), (1, progs.array_case)], p=p)
             lines = [c.line() for c in cases]
             direct = [l.replace(f"|{common.BN128}|", f"|{p}|") for l in c10.direct_traces(ctx.rnd, ndir)]
@@ -130,6 +131,9 @@ def explore(ctx, extended=False, focus=None):
                 bad = check_files(comp, circ, pp, pubs, privs, cons)
                 if pp != p:
                     bad.append(("modulus", f"backend {be} works modulo {pp}, its source names {p}"))
+                from .c13 import CURVE
+                if pp != CURVE[be]:
+                    bad.append(("field", f"field maximum {pp - 1} + 1 is not the scalar-field order of the curve of {be}"))
             except Exception as e:
                 impl = f"{f[0]}|undecodable: {type(e).__name__}: {e}"
                 bad = [("malformed", f"{type(e).__name__}: {e}")]
